@@ -67,6 +67,9 @@ class ListLits(solvegen.Lits):
         if k == "sum":
             d = next(f for f in all_fields(self.sc, self.cls_of_prefix()) if f["name"] == e[1][-1])["elem"]
             return "(sum_expr %s %s %s)" % (cz(d["w"]), cbool(d["sg"]), self.elem_ids(e[1]))
+        if k == "product":
+            d = next(f for f in all_fields(self.sc, self.cls_of_prefix()) if f["name"] == e[1][-1])["elem"]
+            return "(product_expr %s %s)" % (cbool(d["sg"]), self.elem_ids(e[1]))
         if k == "inlist":
             return "(in_list %s %s)" % (self.expr(e[1]), self.elem_ids(e[2]))
         return super().expr(e)
@@ -270,7 +273,15 @@ class ListGen(object):
             if not lf["rand"] and lf["size"] > 0:
                 for i in range(lf["size"]):
                     ops.append({"op": "l_set", "var": "o", "path": [lf["name"]], "index": i, "value": self.wit[lf["name"]][i]})
-        for _ in range(3):
+        # a list used through sum / product that is emptied after a call, while expressions cached for it may still exist
+        aggregated = [x for x in lists if not x["randsz"] and x["name"] not in self.indexed and
+                      any(tag in repr(stmts) for tag in ("['sum', ['%s']]" % x["name"], "['product', ['%s']]" % x["name"]))]
+        clear_at = rnd.choice([1, 2]) if aggregated and rnd.random() < 0.5 else None
+        for rnd_no in range(3):
+            if rnd_no == clear_at:
+                x = rnd.choice(aggregated)
+                ops.append({"op": "l_clear", "var": "o", "path": [x["name"]]})
+                cur[x["name"]] = 0
             if getattr(self, "reset_field", None) and rnd.random() < 0.7:
                 ops.append({"op": "set", "var": "o", "path": [self.reset_field], "value": rnd.choice([0, 0, 1])})
             lf = rnd.choice(lists)
@@ -323,6 +334,11 @@ class ListGen(object):
                 return len(W[e[1][0]])
             if k == "sum":
                 return sum(W[e[1][0]])
+            if k == "product":
+                r = 1 if W[e[1][0]] else 0
+                for x in W[e[1][0]]:
+                    r *= x
+                return r
             if k == "inlist":
                 return int(ev(e[1]) in W[e[2][0]])
             if k == "in":
@@ -425,6 +441,9 @@ class ListGen(object):
             return ["foreach", [name], body]
         if r < 0.50:
             return ["expr", ["bin", rnd.choice(["Eq", "Le", "Gt", "Lt"]), ["sum", [name]], ["lit", rnd.randint(0, 3 * (1 << w))]]]
+        if r < 0.54 and lf["size"] <= 3:
+            # the product (0 for an empty list), against a literal near a feasible value
+            return ["expr", ["bin", rnd.choice(["Eq", "Le", "Ge", "Ne", "Lt"]), ["product", [name]], ["lit", rnd.choice([0, 0, 1, 2, rnd.randint(-8, 30)])]]]
         if r < 0.58:
             # the sum against a narrow field: the comparison is as wide as the sum itself (w + bits(n-1)), not 32 bits
             f = rnd.choice(self.scalars)
